@@ -81,6 +81,7 @@ func RunC13(ch *core.Chooser, env *Env) *Outcome {
 	lists := drawLists(ch, hosts, workload.AllKinds, 3, 1, maxLines, 0)
 
 	// ---- plan
+	allLines := planLines(lists)
 	opKinds := []int{workload.OpDNS, workload.OpDNS, workload.OpDNS, workload.OpDNS, workload.OpWeb, workload.OpWeb, workload.OpWeb, workload.OpMatchAll, workload.OpMatchAll, workload.OpMatch, workload.OpCosmetic, workload.OpCosmetic}
 	var table []workload.Op
 	var steps []histStep
@@ -93,7 +94,7 @@ func RunC13(ch *core.Chooser, env *Env) *Outcome {
 	flooded := false
 	if warm {
 		for i := 0; i < 6; i++ {
-			warmOps = append(warmOps, workload.GenOp(ch, hosts, opKinds))
+			warmOps = append(warmOps, workload.GenOpFor(ch, hosts, opKinds, allLines))
 		}
 	}
 	for n := 0; n < maxOps; n++ {
@@ -134,7 +135,7 @@ func RunC13(ch *core.Chooser, env *Env) *Outcome {
 				o = table[ch.Intn("hist.repeat", len(table))]
 				repeats++
 			default:
-				o = workload.GenOp(ch, hosts, opKinds)
+				o = workload.GenOpFor(ch, hosts, opKinds, allLines)
 			}
 			table = append(table, o)
 			oi := len(table) - 1
